@@ -328,6 +328,70 @@ value and rejects.  If either fact changes this obligation stops checking and th
 whether a stranger's transaction can now store a confirmation. -/
 theorem msgconfirm_wrapper_latent : msgConfirmUnpacks = false ∧ wrapperGuards = ["if !ok"] := by decide
 
+/-! ## 5a. the bytes of the store keys (layout regenerated from the nested `append`s of the key functions) -/
+
+/-- the confirm-store key of a batch confirmation is `0x22 ++ token text ++ be8(nonce) ++ oracle address`; of an oracle-set
+/ bridge-call confirmation `prefix ++ be8(nonce) ++ oracle address`; the object keys `prefix ++ [token text ++] be8(nonce)`;
+the six prefixes are pairwise different single bytes (the stores do not overlap) -/
+theorem key_layouts :
+    keyParts.lookup "GetBatchConfirmKey" = some [("const", "BatchConfirmKey"), ("text", "tokenContract"), ("be8", "batchNonce"), ("addr", "oracleAddr")] ∧
+    keyParts.lookup "GetOracleSetConfirmKey" = some [("const", "OracleSetConfirmKey"), ("be8", "nonce"), ("addr", "oracleAddr")] ∧
+    keyParts.lookup "GetBridgeCallConfirmKey" = some [("const", "BridgeCallConfirmKey"), ("be8", "nonce"), ("addr", "addr")] ∧
+    keyParts.lookup "GetOutgoingTxBatchKey" = some [("const", "OutgoingTxBatchKey"), ("text", "tokenContract"), ("be8", "batchNonce")] ∧
+    keyParts.lookup "GetOracleSetKey" = some [("const", "OracleSetRequestKey"), ("be8", "nonce")] ∧
+    keyParts.lookup "GetOutgoingBridgeCallNonceKey" = some [("const", "OutgoingBridgeCallNonceKey"), ("be8", "id")] ∧
+    (keyPrefixes.map (·.2)).Nodup ∧ keyPrefixes.all (fun p => p.2.length == 1) = true := by decide
+
+/-- the store key of a confirmation determines what it is filed under: two batch-confirm keys (token contract texts of
+one length, as on any one chain) are equal only for the same token contract, nonce and oracle -/
+theorem batch_confirm_key_injective (e1 e2 : KeyEnv) (hl : e1.token.length = e2.token.length)
+    (h1 : e1.nonce < 2 ^ 64) (h2 : e2.nonce < 2 ^ 64)
+    (h : encKey "GetBatchConfirmKey" e1 = encKey "GetBatchConfirmKey" e2) : e1 = e2 := by
+  have hp := key_layouts.1
+  simp only [encKey, hp, Option.getD_some, List.flatMap_cons, List.flatMap_nil, List.append_nil] at h
+  have e : ∀ env : KeyEnv, encPart env ("const", "BatchConfirmKey") = [34] ∧ encPart env ("text", "tokenContract") = env.token ∧
+      encPart env ("be8", "batchNonce") = toBE 8 env.nonce ∧ encPart env ("addr", "oracleAddr") = env.oracle := by
+    intro env; refine ⟨by simp only [encPart, beq_self_eq_true, if_true]; decide, ?_, ?_, ?_⟩ <;> simp [encPart]
+  rw [(e e1).1, (e e1).2.1, (e e1).2.2.1, (e e1).2.2.2, (e e2).1, (e e2).2.1, (e e2).2.2.1, (e e2).2.2.2] at h
+  obtain ⟨a, b, c⟩ := key_layout_inj [34] _ _ _ _ _ _ hl h1 h2 h
+  cases e1; cases e2; simp_all
+
+/-- … and the keys without a token component (oracle-set and bridge-call confirmations) only for the same nonce and oracle -/
+theorem nonce_confirm_key_injective (fn : String) (hfn : fn = "GetOracleSetConfirmKey" ∨ fn = "GetBridgeCallConfirmKey")
+    (e1 e2 : KeyEnv) (h1 : e1.nonce < 2 ^ 64) (h2 : e2.nonce < 2 ^ 64)
+    (h : encKey fn e1 = encKey fn e2) : e1.nonce = e2.nonce ∧ e1.oracle = e2.oracle := by
+  rcases hfn with rfl | rfl
+  · have hp := key_layouts.2.1
+    simp only [encKey, hp, Option.getD_some, List.flatMap_cons, List.flatMap_nil, List.append_nil] at h
+    have e : ∀ env : KeyEnv, encPart env ("const", "OracleSetConfirmKey") = [22] ∧
+        encPart env ("be8", "nonce") = toBE 8 env.nonce ∧ encPart env ("addr", "oracleAddr") = env.oracle := by
+      intro env; refine ⟨by simp only [encPart, beq_self_eq_true, if_true]; decide, ?_, ?_⟩ <;> simp [encPart]
+    rw [(e e1).1, (e e1).2.1, (e e1).2.2, (e e2).1, (e e2).2.1, (e e2).2.2] at h
+    obtain ⟨_, b, c⟩ := key_layout_inj [22] [] [] _ _ _ _ rfl h1 h2 (by simpa using h)
+    exact ⟨b, c⟩
+  · have hp := key_layouts.2.2.1
+    simp only [encKey, hp, Option.getD_some, List.flatMap_cons, List.flatMap_nil, List.append_nil] at h
+    have e : ∀ env : KeyEnv, encPart env ("const", "BridgeCallConfirmKey") = [69] ∧
+        encPart env ("be8", "nonce") = toBE 8 env.nonce ∧ encPart env ("addr", "addr") = env.oracle := by
+      intro env; refine ⟨by simp only [encPart, beq_self_eq_true, if_true]; decide, ?_, ?_⟩ <;> simp [encPart]
+    rw [(e e1).1, (e e1).2.1, (e e1).2.2, (e e2).1, (e e2).2.1, (e e2).2.2] at h
+    obtain ⟨_, b, c⟩ := key_layout_inj [69] [] [] _ _ _ _ rfl h1 h2 (by simpa using h)
+    exact ⟨b, c⟩
+
+/-- the object-store key of a batch determines token contract and nonce: a lookup by `(token, nonce)` can only return
+the batch stored under exactly that pair -/
+theorem batch_object_key_injective (e1 e2 : KeyEnv) (hl : e1.token.length = e2.token.length)
+    (h1 : e1.nonce < 2 ^ 64) (h2 : e2.nonce < 2 ^ 64)
+    (h : encKey "GetOutgoingTxBatchKey" e1 = encKey "GetOutgoingTxBatchKey" e2) : e1.token = e2.token ∧ e1.nonce = e2.nonce := by
+  have hp := key_layouts.2.2.2.1
+  simp only [encKey, hp, Option.getD_some, List.flatMap_cons, List.flatMap_nil, List.append_nil] at h
+  have e : ∀ env : KeyEnv, encPart env ("const", "OutgoingTxBatchKey") = [32] ∧ encPart env ("text", "tokenContract") = env.token ∧
+      encPart env ("be8", "batchNonce") = toBE 8 env.nonce := by
+    intro env; refine ⟨by simp only [encPart, beq_self_eq_true, if_true]; decide, ?_, ?_⟩ <;> simp [encPart]
+  rw [(e e1).1, (e e1).2.1, (e e1).2.2, (e e2).1, (e e2).2.1, (e e2).2.2] at h
+  obtain ⟨a, b, _⟩ := key_layout_inj [32] _ _ [] [] _ _ hl h1 h2 (by simpa using h)
+  exact ⟨a, b⟩
+
 /-! ## 5b. signature decoding with the constants of the source (curve recovery `ec` and hash `H` opaque) -/
 
 /-- a signature either decoder accepts has at least 65 bytes — whatever the curve recovery does -/
@@ -411,6 +475,10 @@ theorem digest_eq_contract_digest (H : List Nat → List Nat) (g : Nat) (a : Any
   | oset o => simp only [goPre, solPre, AnyObj.kind, AnyObj.toObj]; rw [(checkpoint_bytes_equal_oracleSet o g h).1]
   | batch b => simp only [goPre, solPre, AnyObj.kind, AnyObj.toObj]; rw [(checkpoint_bytes_equal_batch b g h).1]
   | bcall c => simp only [goPre, solPre, AnyObj.kind, AnyObj.toObj]; rw [(checkpoint_bytes_equal_bridgeCall c g h).1]
+
+/-- tron chains hash the same bytes as eth-style chains for the same object and gravity id (they differ in the signed-message
+prefix only, `decoders_differ_only_in_prefix`), so `digestOf` is also the checkpoint of a tron chain -/
+theorem tron_preimage_eq_go_preimage (a : AnyObj) (g : Nat) : tronPre a g = goPre a g := tronPre_eq a g
 
 /-- END TO END.  After ANY sequence of typed object stores, registry writes, confirms and prunings on a chain with
 gravity id `g`: every stored confirmation `e` is filed under the key of an object `a` that was stored (same kind, same
